@@ -10,6 +10,7 @@ mod c05;
 mod c06;
 mod c10;
 mod c11;
+mod c20;
 mod net;
 
 fn main() {
@@ -28,6 +29,7 @@ fn main() {
         ("c06", "drive") => c06::drive(&kv),
         ("c10", "drive") => c10::drive(&kv),
         ("c11", "drive") => c11::drive(&kv),
+        ("c20", "drive") => c20::drive(&kv),
         (m, c) => {
             eprintln!("unknown module/command {m} {c}");
             2
